@@ -2,6 +2,7 @@ package main
 
 import (
 	"encoding/json"
+	rdebug "runtime/debug"
 	"flag"
 	"fmt"
 	"os"
@@ -176,6 +177,7 @@ func runHarness(L *Loaded, H *Harness, sem chan struct{}, maxWorkers int, debug 
 					if r := recover(); r != nil {
 						rmu.Lock()
 						res.Err = fmt.Sprintf("engine panic: %v\n  at %s\n  %s", r, m.curSite, strings.Join(m.allStacks(), "\n  "))
+						fmt.Fprintf(os.Stderr, "ENGINE-PANIC harness=%s: %v\n%s\n", H.Name, r, rdebug.Stack())
 						rmu.Unlock()
 					}
 				}()
@@ -401,7 +403,7 @@ func runProperty(repo, verif, prop, tier, only string, workers int, debug, noRep
 				} else if matchOutcome(f, out) {
 					f.Confirmed = "confirmed"
 				} else {
-					f.Confirmed = "unconfirmed: native outcome " + out.Outcome
+					f.Confirmed = "unconfirmed: native outcome " + out.Outcome + " " + firstLineWith(out.Raw, "VERIF-SCHED")
 				}
 			} else {
 				f.Confirmed = "not-replayed"
